@@ -64,7 +64,7 @@ def pathSpec : List Bytes → Doc → Option Doc
 def UniqueKey (name : Bytes) (keys : List Bytes) : Prop :=
   (∀ k ∈ keys, k ≠ []) ∧ (keys.filter (fun k => equalFold k name)).length ≤ 1
 
-theorem equalFold_refl (a : Bytes) : equalFold a a = true := by simp [equalFold]
+theorem equalFold_refl (a : Bytes) : equalFold a a = true := equalFoldU_refl a
 theorem equalFold_of_eq {a b : Bytes} (h : a = b) : equalFold a b = true := by subst h; exact equalFold_refl a
 
 /-- key lookup in a map finds exactly what the specification finds -/
